@@ -2,7 +2,7 @@
     This file contains only statements, each closed by [exact], and Print Assumptions. *)
 From Coq Require Import List Bool ZArith QArith NArith Permutation Sorted.
 Import ListNotations.
-From Verif Require Import Common.ListX Common.Order Common.Sort Gen.Tables C17.Model C17.Spec C17.Proofs C17.SpecProofs.
+From Verif Require Import Common.ListX Common.Order Common.Sort Gen.Tables C17.Model C17.Spec C17.Proofs C17.SpecProofs C17.Idem.
 
 (** Obligations on the definitions regenerated from keyword.py / symbol.py / vector.py *)
 Theorem C17_table_kw_lt : forall a b, kw_lt (fst a) (snd a) (fst b) (snd b) = Spec.name_lt_ref a b.
@@ -58,6 +58,16 @@ Proof. exact Proofs.sort_by_ordered. Qed.
 Theorem C17_sort_by_stable : forall t B (x : option (val t) * B) (l : list (option (val t) * B)),
   filter (fun e => key_eqb t (fst x) (fst e)) (sort_by t l) = filter (fun e => key_eqb t (fst x) (fst e)) l.
 Proof. exact Proofs.sort_by_stable. Qed.
+(** the ordered sequence is a fixed point: an input already ordered by [compare] (ties allowed)
+    is returned unchanged, so [sort] and [sort-by] are idempotent *)
+Theorem C17_sort_of_ordered : forall t l,
+  StronglySorted (fun a b => (compare t a b <= 0)%Z) l -> sort t l = l.
+Proof. exact Idem.sort_of_ordered. Qed.
+Theorem C17_sort_idempotent : forall t l, sort t (sort t l) = sort t l.
+Proof. exact Idem.sort_idempotent. Qed.
+Theorem C17_sort_by_idempotent : forall t B (l : list (option (val t) * B)),
+  sort_by t (sort_by t l) = sort_by t l.
+Proof. exact Idem.sort_by_idempotent. Qed.
 (** CPython's sorted() is assumed to meet the stable-sort contract; any such function
     returns what the model's insertion sort returns (for distinct keys): *)
 Theorem C17_any_stable_sort_agrees : forall t l l',
@@ -90,5 +100,8 @@ Print Assumptions C17_sort_input_order_independent.
 Print Assumptions C17_sort_by_perm.
 Print Assumptions C17_sort_by_ordered.
 Print Assumptions C17_sort_by_stable.
+Print Assumptions C17_sort_of_ordered.
+Print Assumptions C17_sort_idempotent.
+Print Assumptions C17_sort_by_idempotent.
 Print Assumptions C17_any_stable_sort_agrees.
 Print Assumptions C17_nonvacuous.
